@@ -206,6 +206,7 @@ type c7world struct {
 	base   []c7field // fields added by a lazy-with wrapper around the whole stack
 	// streamRefl: the leaves' encoders use a streaming reflected encoder
 	streamRefl bool
+	scratch    map[int][]zap.Field // per task: the field slice it reuses for derivations
 }
 
 type c7op struct {
@@ -254,6 +255,26 @@ func (w *c7world) zapFields(fs []c7field) []zap.Field {
 		}
 	}
 	return out
+}
+
+// scratchFields: like zapFields, but into a slice the task reuses for every
+// derivation (a scratch slice spread into With/Fields with "..."), which
+// poisonScratch overwrites as soon as the derivation has returned: a logger
+// must not keep the caller's slice.
+func (w *c7world) scratchFields(task int, fs []c7field) []zap.Field {
+	if w.scratch == nil {
+		w.scratch = map[int][]zap.Field{}
+	}
+	out := append(w.scratch[task][:0], w.zapFields(fs)...)
+	w.scratch[task] = out
+	return out
+}
+
+func (w *c7world) poisonScratch(task int) {
+	sc := w.scratch[task]
+	for i := range sc[:cap(sc)] {
+		sc[:cap(sc)][i] = zap.String("poisoned-scratch-slot", "the caller reused its field slice")
+	}
 }
 
 func (w *c7world) sugarArgs(fs []c7field) []any {
@@ -680,7 +701,8 @@ func runC07(c *Ctx) {
 				if mutation {
 					w.force(p)
 				}
-				n.lg = p.lg.With(w.zapFields(op.fields)...)
+				n.lg = p.lg.With(w.scratchFields(op.task, op.fields)...)
+				w.poisonScratch(op.task)
 			case c7WithLazy:
 				n.fields = append([]c7field(nil), op.fields...)
 				n.viaSugar = op.front == 1
@@ -693,6 +715,9 @@ func runC07(c *Ctx) {
 				if op.front == 1 {
 					n.lg = p.lg.Sugar().WithLazy(w.sugarArgs(op.fields)...).Desugar()
 				} else {
+					// (a fresh slice: whether WithLazy may keep the caller's variadic
+					// slice until first use is not judged - "evaluating its fields at
+					// first use" can be read either way)
 					n.lg = p.lg.WithLazy(w.zapFields(op.fields)...)
 				}
 			case c7Named:
@@ -710,7 +735,8 @@ func runC07(c *Ctx) {
 				if op.front == 1 {
 					n.lg = p.lg.Sugar().WithOptions(zap.Fields(w.zapFields(op.fields)...)).Desugar()
 				} else {
-					n.lg = p.lg.WithOptions(zap.Fields(w.zapFields(op.fields)...))
+					n.lg = p.lg.WithOptions(zap.Fields(w.scratchFields(op.task, op.fields)...))
+					w.poisonScratch(op.task)
 				}
 			case c7SugarWith:
 				n.fields = w.snapshot(op.fields)
